@@ -184,34 +184,68 @@ func (_this *cteListener) ExitValueBool(ctx *parser.ValueBoolContext) {
 	_this.eventReceiver.OnBoolean(strings.ToLower(ctx.GetText()) == "true")
 }
 
+// Split an integer literal into sign, base and bare digits. Digit separators
+// are removed. If base is 0 the base is taken from the literal's prefix
+// (0b, 0o, 0x); a literal without a prefix is decimal, leading zeros included.
+func splitIntLiteral(str string, base int) (isNegative bool, digits string, actualBase int) {
+	str = strings.ReplaceAll(str, "_", "")
+	if str[0] == '-' {
+		isNegative = true
+		str = str[1:]
+	}
+	if base == 0 {
+		base = 10
+		if len(str) > 2 && str[0] == '0' {
+			switch str[1] {
+			case 'b', 'B':
+				base = 2
+				str = str[2:]
+			case 'o', 'O':
+				base = 8
+				str = str[2:]
+			case 'x', 'X':
+				base = 16
+				str = str[2:]
+			}
+		}
+	}
+	return isNegative, str, base
+}
+
 func (_this *cteListener) ExitValueInt(ctx *parser.ValueIntContext) {
 	defer func() {
 		_this.wrapPanic(recover(), ctx.BaseParserRuleContext)
 	}()
 
-	str := ctx.GetText()
-	str = strings.ReplaceAll(str, "_", "")
-	isNegative := false
-	if str[0] == '-' {
-		isNegative = true
-	}
+	isNegative, digits, base := splitIntLiteral(ctx.GetText(), 0)
 
-	if v, err := strconv.ParseInt(str, 0, 64); err == nil {
-		if v == 0 && isNegative {
+	if v, err := strconv.ParseUint(digits, base, 64); err == nil {
+		switch {
+		case v == 0 && isNegative:
 			_this.eventReceiver.OnNegativeInt(0)
-		} else {
-			_this.eventReceiver.OnInt(v)
+			return
+		case v <= math.MaxInt64 && isNegative:
+			_this.eventReceiver.OnInt(-int64(v))
+			return
+		case v <= math.MaxInt64:
+			_this.eventReceiver.OnInt(int64(v))
+			return
+		case v == 1<<63 && isNegative:
+			_this.eventReceiver.OnInt(math.MinInt64)
+			return
 		}
-		return
 	}
 
 	bigInt := &big.Int{}
-	if _, success := bigInt.SetString(str, 0); success {
+	if _, success := bigInt.SetString(digits, base); success {
+		if isNegative {
+			bigInt.Neg(bigInt)
+		}
 		_this.eventReceiver.OnBigInt(bigInt)
 		return
 	}
 
-	panic(fmt.Errorf("BUG: Expected an integer but got \"%v\"", str))
+	panic(fmt.Errorf("BUG: Expected an integer but got \"%v\"", ctx.GetText()))
 }
 
 func countFloatSignificantDigits(str string) (count uint) {
@@ -1140,7 +1174,8 @@ func appendUID(str string, dst []byte) []byte {
 }
 
 func parseUintElement(str string, base int, bitSize int, result []byte) []byte {
-	element, err := strconv.ParseUint(str, base, bitSize)
+	_, digits, base := splitIntLiteral(str, base)
+	element, err := strconv.ParseUint(digits, base, bitSize)
 	if err != nil {
 		panic(fmt.Errorf("error parsing uint element: %v", err))
 	}
@@ -1159,7 +1194,11 @@ func parseUintElement(str string, base int, bitSize int, result []byte) []byte {
 }
 
 func parseIntElement(str string, base int, bitSize int, result []byte) []byte {
-	element, err := strconv.ParseInt(str, base, bitSize)
+	isNegative, digits, base := splitIntLiteral(str, base)
+	if isNegative {
+		digits = "-" + digits
+	}
+	element, err := strconv.ParseInt(digits, base, bitSize)
 	if err != nil {
 		panic(fmt.Errorf("error parsing int element: %v", err))
 	}
